@@ -7,6 +7,7 @@ A *case* is a detector (grid shape, pixel size, subsampling, kind) and a history
     ('call', input-kind, data, dt, weight)  detector(...)  (= integrate + read_out)
     ('scribble', k, value)                  the caller overwrites the k-th image it got back
     ('reuse', j, data)                      the caller overwrites the buffer it passed to the j-th integrate
+    ('bad', variant, data, dt, weight)      detector.integrate(<power of the wrong size>): must raise and leave the state alone
 
 The oracle keeps its own exact (Fraction) account of what every read-out must be: brute-force
 index loops for the binning, sum over the integrations since the last read-out, independent of the
@@ -22,7 +23,8 @@ from harness.common import rat, rat_list, Fraction, parse_rat_list, dyadic, Mach
 
 TOL = 1e-9
 
-INPUT_KINDS = ['field', 'wavefront', 'plain', 'intfield', 'boolfield', 'list']
+INPUT_KINDS = ['field', 'wavefront', 'plain', 'intfield', 'boolfield', 'list', 'foreignfield']
+BAD_VARIANTS = ['plain', 'list', 'field', 'scalar']
 
 
 # ---------------------------------------------------------------------------------------------
@@ -65,7 +67,10 @@ def gen_case(rng, big):
         elif u < pr + 0.12 and nints > 0:
             ops.append(['reuse', int(rng.integers(0, nints)), [dyadic(rng, 0, 16, 3) for _ in range(nin)]])
         else:
-            ik = str(rng.choice(INPUT_KINDS, p=[0.35, 0.25, 0.15, 0.1, 0.05, 0.1]))
+            if rng.random() < 0.07:
+                ops.append(gen_bad(rng, npix, nin))
+                continue
+            ik = str(rng.choice(INPUT_KINDS, p=[0.32, 0.24, 0.14, 0.1, 0.05, 0.1, 0.05]))
             if ik == 'wavefront':
                 data = [[dyadic(rng, -2, 2, 3) for _ in range(nin)], [dyadic(rng, -2, 2, 3) for _ in range(nin)]]
             elif ik == 'intfield':
@@ -93,6 +98,18 @@ def gen_case(rng, big):
     if kind == 'noisy-set':
         add_setters(rng, case, npix)
     return case
+
+
+def gen_bad(rng, npix, nin):
+    """an integration whose power has not the size of the input grid (wrong-size array, Field on a grid of another
+    size, a bare scalar)"""
+    sizes = sorted({n for n in (nin - 1, nin + 1, 2 * nin, npix, 1, nin + npix, 0) if n >= 0 and n != nin})
+    variant = str(rng.choice(BAD_VARIANTS, p=[0.4, 0.15, 0.35, 0.1]))
+    if variant == 'scalar' and nin == 1:
+        variant = 'plain'
+    n = 1 if variant == 'scalar' else int(rng.choice([k for k in sizes if k > 0 or variant != 'field']))
+    data = [dyadic(rng, 0, 16, 3) for _ in range(n)]
+    return ['bad', variant, data, dyadic(rng, 0.25, 4, 2), float(rng.choice([1.0, 0.5, 2.0]))]
 
 
 PARAMS = ['flat_field', 'dark_current_rate', 'read_noise', 'include_photon_noise']
@@ -190,6 +207,18 @@ DIRECTED = [
       ctor={'flat_field': ['field', [1.0, 1.0]], 'dark_current_rate': ['scalar', 2.0], 'read_noise': ['scalar', 0.5], 'include_photon_noise': ['bool', True]}),
     D('noiseless', [2, 2], 1, [['read']]),
     D('noisy-off', [2, 2], 1, [['read']]),
+    # powers of the wrong size: every detector kind must refuse them and stay as it was
+    D('noiseless', [2, 2], 1, [['int', 'field', [1.0, 2, 3, 4], 1.0, 1.0, False], ['bad', 'plain', [1.0, 2, 3, 4, 5, 6], 1.0, 1.0], ['read'],
+                               ['bad', 'scalar', [3.0], 1.0, 1.0], ['read']]),
+    D('noiseless', [2, 2], 1, [['bad', 'field', [float(i) for i in range(9)], 1.0, 1.0], ['read']]),
+    D('noiseless', [2, 1], 2, [['bad', 'plain', [1.0, 2.0], 1.0, 1.0], ['int', 'field', [1.0, 2, 3, 4, 5, 6, 7, 8], 1.0, 1.0, False], ['read']]),
+    D('noisy-off', [2, 2], 1, [['int', 'field', [1.0, 2, 3, 4], 1.0, 1.0, False], ['bad', 'list', [1.0, 2, 3], 1.0, 1.0], ['read']]),
+    D('noisy-det', [2, 1], 1, [['bad', 'field', [1.0, 2, 3], 1.0, 1.0], ['read'], ['int', 'field', [1.0, 2], 1.0, 1.0, False], ['read']],
+      dark=1.5, flat=[1.0, 0.5]),
+    # a Field of the right size that lives on some other grid: the image is still on the detector grid
+    D('noiseless', [2, 2], 1, [['int', 'foreignfield', [1.0, 2, 3, 4], 1.0, 1.0, False], ['read']]),
+    D('noiseless', [2, 2], 2, [['int', 'foreignfield', [float(i) for i in range(16)], 1.0, 1.0, False], ['read']]),
+    D('noisy-off', [2, 2], 1, [['int', 'foreignfield', [1.0, 2, 3, 4], 1.0, 1.0, False], ['read']]),
     D('noiseless', [3, 2], 1, [['int', 'field', [1.0, 2, 3, 4, 5, 6], 1.0, 1.0, True], ['read'], ['read'],
                                ['int', 'field', [1.0, 2, 3, 4, 5, 6], 0.5, 3.0, False], ['read']]),
     D('noiseless', [2, 1], 2, [['int', 'field', [1.0, 2, 3, 4, 5, 6, 7, 8], 1.0, 1.0, True], ['read']]),
@@ -267,8 +296,23 @@ def make_input(det, ik, data):
     if ik == 'boolfield':
         a = hcipy.Field(np.array(data, dtype=bool), g)
         return a, a, np.array(data, dtype=float)
+    if ik == 'foreignfield':
+        # the right number of samples, on a grid object that is not (and does not equal) the input grid
+        a = hcipy.Field(np.array(data, dtype=float), g.scaled(3.0).shifted(np.ones(g.ndim)))
+        return a, a, a.copy()
     a = hcipy.Field(np.array(data, dtype=float), g)
     return a, a, a.copy()
+
+
+def make_bad_input(variant, data):
+    import hcipy
+    if variant == 'scalar':
+        return float(data[0])
+    if variant == 'list':
+        return list(data)
+    if variant == 'field':
+        return hcipy.Field(np.array(data, dtype=float), hcipy.make_uniform_grid([len(data)], [float(len(data))]))
+    return np.array(data, dtype=float)
 
 
 def fr(x):
@@ -460,6 +504,20 @@ def run_real(case):
                 model.append('C17 read')
                 o['model_idx'] = len(model) - 1
                 do_read(o)
+        elif op[0] == 'bad':
+            _, variant, data, dt, w = op
+            obj = make_bad_input(variant, data)
+            model.append('C17 int %s %s %s' % (rat_list(data), rat(dt), rat(w)))
+            o['model_bad_idx'] = len(model) - 1
+            o['bad_variant'] = variant
+            try:
+                det.integrate(obj, dt, w)
+                o['status'] = 'ok'
+                acc = getattr(det, 'accumulated_charge', None)
+                o['bad'].append(('wrong-size-accepted', 'integrate(<%s with %d values>) on a detector whose input grid has %d points did not raise '
+                                 '(accumulated charge now has shape %r)' % (variant, len(data), det.input_grid.size, np.shape(acc))))
+            except Exception as e:  # noqa
+                o['status'] = 'raises:' + type(e).__name__
         elif op[0] == 'set':
             prm, spec = op[1], op[2]
             if prm == 'flat_field':
@@ -588,6 +646,8 @@ def check_case(ctx, case, lines, index):
             ctx.count('input:' + op[1])
         if op[0] in ('scribble', 'reuse'):
             ctx.count('caller-' + op[0])
+        if op[0] == 'bad':
+            ctx.count('wrong-size-input:' + op[1])
     sig = (case['kind'], tuple(case['dims']), case['s'], nread, nint, multi > 0, empty > 0)
     ctx.case({'kind': case['kind'], 'dims': case['dims'], 's': case['s'], 'ops': [op[0] for op in case['ops']]} if nread > 1 else None,
              nontrivial_key=sig if nread >= 1 else None)
@@ -605,9 +665,26 @@ def compare_model(ctx, out, case, obs, base):
             if out[base + o['model_int_idx']] != 'ok':
                 ctx.disagree('C17 int', {'case': case, 'model': out[base + o['model_int_idx']], 'impl': o['status']})
                 return
+        if 'model_bad_idx' in o:
+            ctx.traces_validated += 1
+            resp = out[base + o['model_bad_idx']]
+            ctx.count('wrong-size:' + ('refused-by-both' if (resp == 'err value' and o['status'].startswith('raises')) else 'differs'))
+            if not (resp == 'err value' and o['status'].startswith('raises')):
+                ctx.disagree('C17 int wrong-size', {'case': case, 'model': resp, 'impl': o['status']})
+                return
         if 'model_idx' in o and 'got' in o:
             ctx.traces_validated += 1
             resp = out[base + o['model_idx']]
+            if case['kind'] != 'noiseless':
+                # the noisy model also prints its "every noise source is off" flag (PSt.off): compare with the
+                # harness' own account of the parameters the real object has been given
+                resp, _, flag = resp.rpartition(' ')
+                if flag not in ('off', 'on'):
+                    raise MachineryError('noisy read-out without flag: %r' % out[base + o['model_idx']])
+                ctx.count('off-flag:%s' % flag)
+                if (flag == 'off') != bool(o.get('off')):
+                    ctx.disagree('C17 off-flag', {'case': case, 'model': flag, 'impl_off': o.get('off')})
+                    return
             if o.get('random') or resp == 'ok random':
                 if not (o.get('random') and resp == 'ok random'):
                     ctx.disagree('C17 read', {'case': case, 'model': resp, 'impl_random': o.get('random')})
@@ -636,7 +713,8 @@ def run(ctx):
                 'read-out; distinct by (kind, dims, subsampling, #read-outs, #integrations, multi-integration seen, empty read-out seen).')
     ctx.assumptions += ['NumPy elementwise arithmetic and reshape/sum follow their specification',
                         'wavefront.power is taken from the real object (how power derives from the field is not part of C17)',
-                        'inputs have the size of detector.input_grid (size validation is not part of the property)']
+                        'a power array of the wrong size must be refused (any exception) and leave the detector unchanged; '
+                        'arrays with the right number of samples but another shape (e.g. 2-D) are not sent']
     n = ctx.scale(2500, 40000)
     cases = list(DIRECTED)
     for k in range(n):
